@@ -375,10 +375,34 @@ def curated_task(name, text, inputs, binary):
     return st
 
 
+def label_programs():
+    """register one label, then execute a second heart command: jumps iff (count, heart) are both equal"""
+    out = []
+    labs = [(c, h) for c in (1, 2, 3) for h in P.HEARTS[:11]]
+    for (c1, h1) in labs:
+        for (c2, h2) in labs:
+            if (c1, h1) != (c2, h2) and c1 == c2 and h1 == h2:
+                continue
+            # 형{c1}h1 registers; 항. prints NaN/previous; second command with (c2,h2): equal -> jump back (loop), else go on
+            out.append('형%s%s 항. 형%s%s 형.... 항.' % ('.' * c1, h1, '.' * c2, h2))
+    return out
+
+
 STDIN_EXT = ['x', 'x\r\n', '\x00y\n', '\U0001F600\U00010000\n\n']
 
 
+def list_task(texts):
+    st = Stats()
+    sh = shim()
+    for text in texts:
+        lockstep(sh, st, text, P.parse(text), '', {}, 0, 40, 'labels')
+        st.inc('programs')
+    return st
+
+
 def _task(t):
+    if t[0] == 'curated-list':
+        return list_task(t[1])
     if t[0] == 'onestep':
         return onestep_task(t[1], t[2])
     if t[0] == 'programs':
@@ -409,6 +433,9 @@ def run_c01(tier):
                         tasks.append(('programs', alpha, [a, b], L - 2, inputs, False))
                 else:
                     tasks.append(('programs', alpha, [a], L - 1, inputs, tier == 'quick' or L <= 3))
+    labs = label_programs()
+    for i in range(0, len(labs), 60):
+        tasks.append(('curated-list', labs[i:i + 60]))
     cur = curated_programs()
     cin = curated_inputs(2 if tier == 'quick' else 3)
     for name, text in cur:
@@ -428,7 +455,7 @@ def run_c01(tier):
         'scope': {'onestep_cases': {k: len(v) for k, v in cases.items()},
                   'program_alphabet': alpha, 'program_max_len': n, 'programs': st.n.get('programs', 0),
                   'lockstep_traces': st.n.get('traces', 0), 'binary_runs': st.n.get('runs', 0),
-                  'curated_programs': [c[0] for c in cur], 'curated_inputs': len(cin),
+                  'label_pair_programs': len(labs), 'curated_programs': [c[0] for c in cur], 'curated_inputs': len(cin),
                   'step_bound': MAXSTEPS, 'value_horizon_bits': HORIZON,
                   'paths_cut_unspecified_or_horizon': st.n.get('cut', 0)},
         'distinct_outcomes': sorted(st.sets.get('ends', ())),
